@@ -23,8 +23,10 @@ RULE_EXT = ("dyn: cases = real vm.Contexts created (System.Contract.Call, CALLT,
             "storage / notification effects and management operations observed instruction by instruction while real "
             "transactions (the same ones are then put into real blocks and their application logs compared) change the contract "
             "table under the running invocation; histories are TLC-generated behaviours of FlagsDynSim (both protocol versions of "
-            "the permission rule) plus seeded random ones over a larger universe; every event is judged by FlagsDynTrace with the "
-            "abstract clauses of FlagsDyn over the table the specification tracks")
+            "the permission rule), 3,516 scripted situations enumerated over TLC's universe (self-update then call, callee updated / "
+            "destroyed / deployed earlier, re-deployment of a destroyed hash, ContractManagement with restricted flags, _deploy "
+            "callbacks) and seeded random ones over a larger universe; every event is judged by FlagsDynTrace with the abstract "
+            "clauses of FlagsDyn over the table the specification tracks")
 
 RULE = RULE_EXT
 # (cfg, deviation, the clause that must refute it)
@@ -54,8 +56,8 @@ def run_ext(ctx):
     mcs = [("MC_abs.cfg", 2), ("MC_q_loaded.cfg", 3), ("MC_q_stored.cfg", 3), ("MC_two2.cfg", 3)] if q else \
           [("MC_abs.cfg", 2), ("MC_full_loaded.cfg", 4), ("MC_full_stored.cfg", 4), ("MC_two2.cfg", 3), ("MC_three2.cfg", 4)]
     pool = concurrent.futures.ThreadPoolExecutor(max_workers=8 if q else 6)
-    simf = [pool.submit(lambda cfg=cfg, sd=sd: (cfg, ctx.tlc_sim("flagsdyn", "FlagsDynSim.tla", cfg, num=100 if q else 600, depth=120,
-                                                                 timeout=300 if q else 1200, seed=sd)))
+    simf = [pool.submit(lambda cfg=cfg, sd=sd: (cfg, ctx.tlc_sim("flagsdyn", "FlagsDynSim.tla", cfg, num=100 if q else 2000, depth=120,
+                                                                 timeout=300 if q else 1800, seed=sd)))
             for cfg, sd in (("Sim_dyn.cfg", ctx.seed), ("Sim_dyn_stored.cfg", ctx.seed + 7919))]
     bugf = [pool.submit(lambda cfg=cfg: ctx.tlc(d, "MCFlagsDyn.tla", cfg, 600, workers=1)) for cfg, _ in BUGS]
     mcf = [pool.submit(lambda cfg=cfg, wk=wk: ctx.tlc(d, "MCFlagsDyn.tla", cfg, 900 if q else 3000, workers=wk)) for cfg, wk in mcs]
@@ -109,7 +111,7 @@ def _run(ctx, q, sims, bugf, mcf, mcs):
     json.dump(behaviours, open(os.path.join(ind, "behaviours.json"), "w"))
     ctx.extra["dyn_tlc_histories"] = len(behaviours)
     # ---------------------------------------------------------------- 4. the real chain
-    res = ctx.go_driver("c16dyn", "TestDriver", env={"VERIF_IN": ind, "VERIF_RANDOM": 400 if q else 12000, "VERIF_SCRIPTED_EVERY": 1},
+    res = ctx.go_driver("c16dyn", "TestDriver", env={"VERIF_IN": ind, "VERIF_RANDOM": 400 if q else 25000, "VERIF_SCRIPTED_EVERY": 1},
                         timeout=3000)
     stats = res.pop("stats", None) or {}
     for k, v in stats.items():
